@@ -167,15 +167,18 @@ class CallRecorder:
 
     def __init__(self):
         self.codes = {}
+        self.snaps = {}
         self.records = []
         self.stack = []
         self.active = False
 
-    def watch(self, func, name=None):
+    def watch(self, func, name=None, snap=None):
+        """snap: optional function applied to the argument dict at call time (objects may be mutated later)."""
         func = getattr(func, '__func__', func)
         func = getattr(func, '_orig', func)
         code = func.__code__
         self.codes[code] = name or func.__qualname__
+        self.snaps[code] = snap
 
     def start(self):
         mon = sys.monitoring
@@ -207,6 +210,8 @@ class CallRecorder:
             return sys.monitoring.DISABLE
         frame = sys._getframe(1)
         args = {k: frame.f_locals.get(k) for k in code.co_varnames[:code.co_argcount + code.co_kwonlyargcount]}
+        if self.snaps.get(code):
+            args = self.snaps[code](args)
         rec = {'name': self.codes[code], 'args': args, 'ret': None, 'done': False}
         self.records.append(rec)
         self.stack.append(rec)
